@@ -71,6 +71,7 @@ func (s *c04TypeSet) names() string {
 type c04Typer struct {
 	c     *core.Ctx
 	newLB *types.Func
+	news  map[*types.Func]bool // NewLoadBalancer and the functions it merely delegates to
 	busy  map[*types.Func]bool
 	pms   map[*ast.FuncDecl]map[ast.Node]ast.Node
 }
@@ -226,7 +227,7 @@ func (t *c04Typer) exprTypes(pkg *packages.Package, fd *ast.FuncDecl, e ast.Expr
 			out.unknown = "dynamic call " + types.ExprString(x.Fun)
 			return out
 		}
-		if fo == t.newLB {
+		if fo == t.newLB || t.news[fo] {
 			out.viaNew = true
 			return out
 		}
@@ -292,6 +293,34 @@ func (t *c04Typer) exprTypes(pkg *packages.Package, fd *ast.FuncDecl, e ast.Expr
 			return true
 		})
 		if n == 0 && out.unknown == "" {
+			// a parameter of an unexported function (a setter such as slot.store(lb)): what the
+			// callers of that function hand over
+			if idx := c04ParamPos(pkg.TypesInfo, fd, o); idx >= 0 && !fd.Name.IsExported() && depth < 4 {
+				fobj := pkg.TypesInfo.Defs[fd.Name]
+				sites := 0
+				for _, file := range pkg.Syntax {
+					for _, d := range file.Decls {
+						gd, ok := d.(*ast.FuncDecl)
+						if !ok || gd.Body == nil {
+							continue
+						}
+						for _, call := range calls(gd.Body, true) {
+							if c04Callee(pkg.TypesInfo, call) == fobj && idx < len(call.Args) {
+								sites++
+								cenv := c04Env{}
+								if gd.Recv != nil && len(gd.Recv.List) == 1 && len(gd.Recv.List[0].Names) == 1 {
+									cenv[pkg.TypesInfo.Defs[gd.Recv.List[0].Names[0]]] = true
+								}
+								out.add(t.exprTypes(pkg, gd, call.Args[idx], cenv, depth+1))
+								out.note(pkg, t.guard(pkg, gd, call, cenv))
+							}
+						}
+					}
+				}
+				if sites > 0 {
+					return out
+				}
+			}
 			out.unknown = "value of " + x.Name + " (parameter or never assigned)"
 		}
 		return out
@@ -323,6 +352,24 @@ func (t *c04Typer) returnTypes(pkg *packages.Package, fd *ast.FuncDecl, body ast
 		return true
 	})
 	return out
+}
+
+// c04ParamPos returns the position of parameter o in fd's parameter list (-1 if it is none).
+func c04ParamPos(info *types.Info, fd *ast.FuncDecl, o types.Object) int {
+	i := 0
+	for _, fld := range fd.Type.Params.List {
+		if len(fld.Names) == 0 {
+			i++
+			continue
+		}
+		for _, n := range fld.Names {
+			if info.Defs[n] == o {
+				return i
+			}
+			i++
+		}
+	}
+	return -1
 }
 
 // c04NamedResult returns the identifier of the first named result of fd (nil if unnamed).
@@ -382,6 +429,9 @@ func c04PolicyCases(c *core.Ctx, pkg *packages.Package, fd *ast.FuncDecl) (cases
 			if _, isSlice := sig.Params().At(i).Type().Underlying().(*types.Slice); !isSlice {
 				env[sig.Params().At(i)] = true
 			}
+		}
+		if fd.Recv != nil && len(fd.Recv.List) == 1 && len(fd.Recv.List[0].Names) == 1 {
+			env[pkg.TypesInfo.Defs[fd.Recv.List[0].Names[0]]] = true // (*LoadBalanceSpec).newBalancer: the spec itself
 		}
 	}
 	var named types.Object
@@ -662,6 +712,9 @@ func c04OneType(c *core.Ctx, info *c04Info) {
 	if fd == nil {
 		return // c04Resolve reported the anchor
 	}
+	if info.dispatchDecl != nil {
+		fd = info.dispatchDecl
+	}
 	cons := fname(c04pkg, "", "NewLoadBalancer")
 	const hazard = "ServerPool keeps its balancer in an atomic.Value and atomic.Value.Store panics (\"store of inconsistently typed value into Value\") when service discovery replaces the list by one that selects the other type: the watcher goroutine crashes the process and the pool stops following discovery"
 	if info.outside != nil {
@@ -712,7 +765,7 @@ func c04OneType(c *core.Ctx, info *c04Info) {
 			}
 			for _, v := range vals {
 				stores++
-				t := &c04Typer{c: c, newLB: newLB, busy: map[*types.Func]bool{}}
+				t := &c04Typer{c: c, newLB: newLB, news: info.dispatch, busy: map[*types.Func]bool{}}
 				env := c04Env{}
 				if d.Recv != nil && len(d.Recv.List) == 1 && len(d.Recv.List[0].Names) == 1 {
 					env[p.TypesInfo.Defs[d.Recv.List[0].Names[0]]] = true // the pool itself: its configuration is fixed
@@ -742,6 +795,17 @@ func c04CondString(e ast.Expr) string {
 
 // c04Holder returns ServerPool's unique atomic.Value field (nil if unresolved; reported elsewhere).
 func c04Holder(c *core.Ctx) *types.Var {
+	path := c04HolderPath(c)
+	if len(path) == 0 {
+		return nil
+	}
+	return path[len(path)-1]
+}
+
+// c04HolderPath returns the fields leading from ServerPool to its unique sync/atomic.Value: the
+// field itself, or (when the slot was given a type of its own, `balancer balancerSlot{v atomic.Value}`)
+// the outer field(s) followed by the inner one. nil if there is none or more than one.
+func c04HolderPath(c *core.Ctx) []*types.Var {
 	pkg := c.Prog.Pkg(c04pkg)
 	if pkg == nil {
 		return nil
@@ -750,18 +814,29 @@ func c04Holder(c *core.Ctx) *types.Var {
 	if tn == nil {
 		return nil
 	}
-	st, ok := tn.Type().Underlying().(*types.Struct)
-	if !ok {
-		return nil
-	}
-	var holder *types.Var
-	for i := 0; i < st.NumFields(); i++ {
-		if st.Field(i).Type().String() == "sync/atomic.Value" {
-			if holder != nil {
-				return nil
+	var found [][]*types.Var
+	var walk func(t types.Type, prefix []*types.Var, depth int)
+	walk = func(t types.Type, prefix []*types.Var, depth int) {
+		st, ok := t.Underlying().(*types.Struct)
+		if !ok || depth > 2 {
+			return
+		}
+		for i := 0; i < st.NumFields(); i++ {
+			f := st.Field(i)
+			path := append(append([]*types.Var{}, prefix...), f)
+			if f.Type().String() == "sync/atomic.Value" {
+				found = append(found, path)
+				continue
 			}
-			holder = st.Field(i)
+			// only slot structs held BY VALUE belong to the pool itself
+			if n, ok := f.Type().(*types.Named); ok && n.Obj().Pkg() == pkg.Types {
+				walk(n, path, depth+1)
+			}
 		}
 	}
-	return holder
+	walk(tn.Type(), nil, 0)
+	if len(found) != 1 {
+		return nil
+	}
+	return found[0]
 }
